@@ -240,4 +240,32 @@ def sortDPDesc (l : List DP) : List DP := l.mergeSort (fun a b => !dpGt b a)
 /-- `std::count(data.begin(), data.end(), x)` counts with `operator==` -/
 def countDP (l : List DP) (x : DP) : Nat := (l.filter (fun a => dpEq a x)).length
 
+/-! ### The guards of the summary statistics (fix 67d359e): too short a data list stops with a diagnostic.
+    `mean`, `median`, `variance`, `weightedAverage` above are the computations (their `none` is exactly the
+    guarded case, except `weightedAverage`'s vanishing weight sum, which still divides by zero). -/
+
+def meanE (l : List Rat) : Except Err Rat :=
+  if l.length = 0 then .error .diag else .ok (sum l / l.length)
+
+def medianE (l : List Rat) : Except Err Rat :=
+  if l.length = 0 then .error .diag
+  else
+    let s := sortRat l
+    let n := l.length
+    if n % 2 = 0 then .ok ((s.getD (n / 2 - 1) 0 + s.getD (n / 2) 0) / 2)
+    else .ok (s.getD (n / 2) 0)
+
+def varianceE (l : List Rat) : Except Err Rat :=
+  if l.length < 2 then .error .diag
+  else
+    let m := sum l / l.length
+    .ok (sum (l.map (fun x => (x - m) * (x - m))) / ((l.length : Rat) - 1))
+
+/-- `Standard_Deviation = sqrt(Variance)`: the model returns the square; same guard. -/
+def stdDevSqE (l : List Rat) : Except Err Rat := varianceE l
+
+/-- inner `none`: the weights sum to zero (division by zero, outside the property) -/
+def weightedAverageE (d : List (Rat × Rat)) : Except Err (Option (Rat × Rat)) :=
+  if d.length < 2 then .error .diag else .ok (weightedAverage d)
+
 end Lp.C19
